@@ -91,6 +91,7 @@ func runC06(p *core.Prog, r *core.Result) {
 		"R6.13 one file, one registry key: the module and target tables are keyed by printed labels, and the file a label names is found through label.Split, which ignores empty elements - so the key determines the file only if labels are canonical: every successful result of label.Clean is the empty string or what its scanner wrote, never the argument handed back unexamined (C12's R12.11; `//lib/` slipping through gives lib/BUILD.dawn two keys and it is executed twice)",
 		"R6.14 acyclic graphs always load: in package dawn the error of every fallible label constructor (label.Join, Parse, New, Clean, RelativeTo) is looked at before its result is used - the package walk joins directory names onto package paths, and a name no label can contain (a ':') otherwise yields the empty package, on which the recursive walk crashes (one call exempt by name: loadModule's RelativeTo of two Clean results)",
 		"R6.15 a cyclic load fails with the cyclic-dependency error whatever else went wrong: Project.load does not return the error of the first failed module that a range over the module table meets (map iteration is random); the failed modules' errors are collected and returned together",
+		"R6.16 loading terminates when helper modules share a Cache: a caller of once() waits for nothing but the cache's mutex, which the filling caller holds from the lookup through the call to the update and releases on every exit (C20's R20.2/R20.3) - a per-key 'ready' signal that the failure path forgets to give leaves every other package that asked for the key blocked for ever",
 	}
 	r.NotDecided = []string{"termination and deadlock-freedom under every interleaving of the loader goroutines", "equality of the resulting target and flag sets across interleavings"}
 
@@ -476,6 +477,7 @@ func runC06(p *core.Prog, r *core.Result) {
 	checkCleanResultsFromScanner(p, r, "R6.13")
 	checkLabelErrorsNotDropped(p, r, "R6.14")
 	checkModuleErrorsNotPickedAtRandom(p, r, "R6.15")
+	r.Floor("R6.16", importObligations(p, r, runC20, "C20", map[string]bool{"R20.2": true, "R20.3": true}, "R6.16"), 2, "obligations on the critical section of Cache.once")
 
 	// ---- R6.12 caches shared between loaders
 	nDawnCaches := checkSyncMapCaches(p, r, "R6.12", pkgRoot, "")
